@@ -47,4 +47,23 @@ REFACTORS = [
     # S10: Repository::clean guard split in two
     ("s10", R + "storage/git.rs", "            if *local == id || delegates.contains(&id) {\n                continue;\n            }",
      "            if *local == id {\n                continue;\n            }\n            if delegates.contains(&id) {\n                continue;\n            }", 1),
+    # S11: pkt-line length test written with a range
+    ("s11", N + "worker/upload_pack.rs", "            if length < HEADER_LEN || length > buf.len() {", "            if !(HEADER_LEN..=buf.len()).contains(&length) {", 1),
+    # S12: authorization outcome matched instead of `if let Err`
+    ("s12", N + "worker.rs", "                if let Err(e) = self.is_authorized(remote, header.repo) {\n                    return FetchResult::Responder {\n                        rid: Some(header.repo),\n                        result: Err(e),\n                    };\n                }",
+     "                match self.is_authorized(remote, header.repo) {\n                    Ok(()) => {}\n                    Err(e) => {\n                        return FetchResult::Responder {\n                            rid: Some(header.repo),\n                            result: Err(e),\n                        };\n                    }\n                }", 1),
+    # S13: signature check propagated with `?`
+    ("s13", R + "storage/refs.rs", "        if let Err(e) = self.id.verify(canonical, &self.signature) {\n            return Err(e.into());\n        }",
+     "        self.id.verify(canonical, &self.signature)?;", 1),
+    # S14: deserialize_next without a match guard
+    ("s14", N + "deserializer.rs", "            Err(err) if err.is_eof() => Ok(None),\n            Err(err) => Err(err),",
+     "            Err(err) => {\n                if err.is_eof() {\n                    Ok(None)\n                } else {\n                    Err(err)\n                }\n            }", 1),
+    # S15: rate limiter bypass tests restructured
+    ("s15", N + "service/limiter.rs", "        if let Some(nid) = nid {\n            if self.bypass.contains(nid) {\n                return false;\n            }\n        }",
+     "        if nid.is_some_and(|nid| self.bypass.contains(nid)) {\n            return false;\n        }", 1),
+    # S16: SQL keywords in lower case and re-wrapped
+    ("s16", R + "node/routing.rs", "WHERE timestamp < ?3", "where timestamp < ?3", 1),
+    # S17: gossip handler: verify() matched
+    ("s17", N + "service.rs", "        if !announcement.verify() {\n            return Err(session::Error::Misbehavior);\n        }",
+     "        match announcement.verify() {\n            true => {}\n            false => return Err(session::Error::Misbehavior),\n        }", 1),
 ]
